@@ -123,6 +123,8 @@ def _tail_returns_only(body):
         return True
     if isinstance(last, ast.If):
         return _tail_returns_only(last.body) and _tail_returns_only(last.orelse)
+    if isinstance(last, ast.Try) and not last.finalbody and not _contains_return(last.body):
+        return all(_tail_returns_only(h.body) for h in last.handlers) and _tail_returns_only(last.orelse)
     for sub in ast.walk(last):
         if isinstance(sub, ast.Return):
             return False
@@ -137,6 +139,8 @@ def _ends_with_return(body):
         return True
     if isinstance(last, ast.If) and last.orelse:
         return _ends_with_return(last.body) and _ends_with_return(last.orelse)
+    if isinstance(last, ast.Try) and not last.finalbody and last.orelse:
+        return all(_ends_with_return(h.body) or (h.body and isinstance(h.body[-1], ast.Raise)) for h in last.handlers) and _ends_with_return(last.orelse)
     return False
 
 
@@ -174,6 +178,21 @@ def _tailify(stmts, budget=None):
                     st.body = _tailify(list(st.body) + copy.deepcopy(rest), budget)
                     st.orelse = _tailify(list(st.orelse) + rest, budget)
             out.append(st)
+            return out
+        if isinstance(st, ast.Try) and not st.finalbody and not _contains_return(st.body) and (
+                _contains_return([h_ for h in st.handlers for h_ in h.body]) or _contains_return(st.orelse)):
+            # `try: A except: H (returns / raises / falls through)` + REST -> REST moves into the else-clause (and behind a handler
+            # that falls through): REST is outside the protection of the handlers either way
+            rest = stmts[i + 1:]
+            hs = []
+            for h in st.handlers:
+                hb = _tailify(list(h.body), budget)
+                leaves = bool(hb) and (isinstance(hb[-1], (ast.Raise, ast.Return)) or _ends_with_return(hb))
+                if not leaves and rest:
+                    hb = _tailify(list(h.body) + copy.deepcopy(rest), budget)
+                hs.append(ast.copy_location(ast.ExceptHandler(type=h.type, name=h.name, body=hb or [ast.copy_location(ast.Pass(), h)]), h))
+            oe = _tailify(list(st.orelse) + list(rest), budget)
+            out.append(ast.copy_location(ast.Try(body=st.body, handlers=hs, orelse=oe, finalbody=[]), st))
             return out
         out.append(st)
     return out
@@ -414,6 +433,10 @@ def _expand(call, fn, is_method, counter, result_name):
             if isinstance(st, ast.If):
                 st.body = fix_returns(st.body) or [ast.copy_location(ast.Pass(), st)]
                 st.orelse = fix_returns(st.orelse)
+            elif isinstance(st, ast.Try):
+                for h in st.handlers:
+                    h.body = fix_returns(h.body) or [ast.copy_location(ast.Pass(), h)]
+                st.orelse = fix_returns(st.orelse)
             out.append(st)
         return out
     body = fix_returns(body)
@@ -588,8 +611,14 @@ def _simple_generator(fn):
             return None
     loop = body[-1]
     ylds = [x for x in ast.walk(fn) if isinstance(x, (ast.Yield, ast.YieldFrom))]
-    if not ylds or any(isinstance(x, (ast.Return, ast.Await, ast.Global, ast.Nonlocal, ast.FunctionDef, ast.Lambda)) for x in ast.walk(loop)):
+    if not ylds or any(isinstance(x, (ast.Await, ast.Global, ast.Nonlocal, ast.FunctionDef, ast.Lambda)) for x in ast.walk(loop)):
         return None
+    # a bare `return` inside the loop ends the generator: the same as leaving the loop (nothing follows it in the generator)
+    for x in ast.walk(loop):
+        if isinstance(x, ast.Return) and x.value is not None:
+            return None
+        if isinstance(x, (ast.For, ast.While)) and x is not loop and any(isinstance(y, ast.Return) for y in ast.walk(x)):
+            return None
     found = []
 
     def scan(stmts):
@@ -641,13 +670,34 @@ def _decontinue(stmts):
                 return None       # a continue deeper inside: not handled
             out.append(new)
             return out
+        if isinstance(st, ast.Try) and not st.finalbody and any(isinstance(x, ast.Continue) for x in ast.walk(st)) \
+                and not any(isinstance(x, ast.Continue) for b_ in st.body for x in ast.walk(b_)):
+            # `try: A except: H; continue` + REST  ->  `try: A except: H else: REST` (REST is not protected by the handlers either way)
+            rest = _decontinue(stmts[i + 1:])
+            if rest is None:
+                return None
+            hs = []
+            for h in st.handlers:
+                ends_cont = bool(h.body) and isinstance(h.body[-1], ast.Continue)
+                hb = _decontinue(h.body[:-1] if ends_cont else h.body)
+                if hb is None:
+                    return None
+                leaves = bool(hb) and isinstance(hb[-1], (ast.Raise, ast.Return, ast.Break))
+                if not ends_cont and not leaves:
+                    hb = hb + copy.deepcopy(rest)
+                hs.append(ast.copy_location(ast.ExceptHandler(type=h.type, name=h.name, body=hb or [ast.copy_location(ast.Pass(), h)]), h))
+            oe = _decontinue(st.orelse)
+            if oe is None:
+                return None
+            out.append(ast.copy_location(ast.Try(body=st.body, handlers=hs, orelse=oe + rest, finalbody=[]), st))
+            return out
         if any(isinstance(x, ast.Continue) for x in ast.walk(st)) and not isinstance(st, (ast.For, ast.While)):
             return None
         out.append(st)
     return out
 
 
-def inline_simple_generators(tree, extern=None):
+def inline_simple_generators(tree, extern=None, modname=None):
     """`for T in self._gen(args): BODY` and `x = next(self._gen(args), D)` over a private one-loop generator are rewritten into
     the generator's own loop with `yield V` replaced by `T = V; BODY` resp. `x = V; break`"""
     gens, mgens = {}, {}
@@ -655,7 +705,9 @@ def inline_simple_generators(tree, extern=None):
         if isinstance(node, ast.FunctionDef) and _simple_generator(node) is not None:
             gens[nm] = node
     for node in tree.body:
-        if isinstance(node, ast.FunctionDef) and node.name.startswith("_") and not node.name.startswith("__") and _simple_generator(node) is not None:
+        new_fn = bool(modname) and bool(_reference()) and ("%s.%s" % (modname, node.name)) not in _reference() if isinstance(node, ast.FunctionDef) else False
+        if isinstance(node, ast.FunctionDef) and ((node.name.startswith("_") and not node.name.startswith("__")) or new_fn) \
+                and _simple_generator(node) is not None:
             gens[node.name] = node
         elif isinstance(node, ast.ClassDef):
             for sub in node.body:
@@ -680,6 +732,9 @@ def inline_simple_generators(tree, extern=None):
     def replace_yields(stmts, make):
         out = []
         for st in stmts:
+            if isinstance(st, ast.Return):
+                out.append(ast.copy_location(ast.Break(), st))      # the generator stops: the merged loop is left
+                continue
             if isinstance(st, ast.Expr) and isinstance(st.value, ast.Yield):
                 out.extend(make(st.value.value, st))
                 continue
@@ -718,6 +773,8 @@ def inline_simple_generators(tree, extern=None):
                     h.body = process(h.body, cls_name, self_fn)
             if isinstance(st, ast.For):
                 hit = gen_call(st.iter, cls_name)
+                if hit and st.orelse and any(isinstance(x, ast.Return) for x in ast.walk(hit[0])):
+                    hit = None       # `return` in the generator would have to run the consumer's else-clause
                 if hit and hit[0] is not self_fn:
                     exp = expand(st.iter, hit[0], hit[1])
                     if exp is not None:
@@ -1006,15 +1063,21 @@ def _sink_tuple_results(tree):
         i = 1
         while i < len(out):
             st = out[i]
-            if isinstance(st, ast.Assign) and len(st.targets) == 1 and isinstance(st.targets[0], ast.Tuple) \
-                    and all(isinstance(t, ast.Name) for t in st.targets[0].elts) and isinstance(st.value, ast.Name) \
-                    and _TEMP_NAME.match(st.value.id):
+            single = isinstance(st, ast.Assign) and len(st.targets) == 1 and isinstance(st.targets[0], ast.Name) \
+                and isinstance(st.value, ast.Name) and st.value.id.startswith("__ret_") and isinstance(out[i - 1], ast.If)
+            if single or (isinstance(st, ast.Assign) and len(st.targets) == 1 and isinstance(st.targets[0], ast.Tuple)
+                          and all(isinstance(t, ast.Name) for t in st.targets[0].elts) and isinstance(st.value, ast.Name)
+                          and _TEMP_NAME.match(st.value.id)):
                 name = st.value.id
-                tg = [t.id for t in st.targets[0].elts]
+                tg = [st.targets[0].id] if single else [t.id for t in st.targets[0].elts]
                 acc = []
                 ok = tails(out[i - 1], name, acc) and acc
                 if ok and any(isinstance(x, ast.Name) and x.id == name for s2 in out[i + 1:] + out[:i - 1] for x in ast.walk(s2)):
                     ok = False
+                if ok and single:
+                    # y = tmp: every `tmp = e` in tail position becomes `y = e` (e may read y: it is evaluated before the store)
+                    for a in acc:
+                        a.value = ast.copy_location(ast.Tuple(elts=[a.value], ctx=ast.Load()), a.value)
                 if ok and not all(isinstance(a.value, ast.Tuple) and len(a.value.elts) == len(tg) for a in acc):
                     ok = False
                 if ok:
@@ -1869,11 +1932,11 @@ def unroll_constant_loops(tree, limit=8):
     def fn(stmts):
         out = []
         for st in stmts:
-            if isinstance(st, ast.For) and not st.orelse:
+            if isinstance(st, ast.For):
                 rows = rows_of(st.iter)
                 names = {x.id for x in ast.walk(st.target) if isinstance(x, ast.Name)}
                 body_nodes = [x for b in st.body for x in ast.walk(b)]
-                jumps = any(isinstance(x, (ast.Break, ast.Continue, ast.Return)) for x in body_nodes)
+                jumps = any(isinstance(x, (ast.Break, ast.Continue, ast.Return)) for x in body_nodes) or bool(st.orelse)
                 if rows is not None and 0 < len(rows) <= limit and all(_simple_elt(r) for r in rows) \
                         and not any(isinstance(x, (ast.FunctionDef, ast.Lambda)) for x in body_nodes) \
                         and not any(isinstance(x, ast.Name) and x.id in names and isinstance(x.ctx, ast.Store) for x in body_nodes):
@@ -1897,7 +1960,7 @@ def unroll_constant_loops(tree, limit=8):
                             unrolled.extend(b_)
                     elif ok:
                         # break / continue / return inside the body: the following iterations are threaded into the tail positions
-                        rest = []
+                        rest = copy.deepcopy(st.orelse)      # the else-clause runs when the last iteration ends without `break`
                         budget = [600]
                         for b_ in reversed(bodies):
                             rest = _thread_iteration(b_, rest, budget)
@@ -2083,6 +2146,92 @@ def propagate_sentinels(tree):
     return n
 
 
+def propagate_selectors(tree):
+    """`f = None` / `if T1: f = V1 elif T2: f = V2` (the only stores of f; V simple: names, attributes, constants) followed later
+    by `if f is not None: BODY` (or `if f:` for non-constant V) -> `if T1: BODY[f := V1] elif T2: BODY[f := V2]`: a decision taken once
+    and remembered in a variable is replayed where it is used.  `str.upper(x)` -> `x.upper()`."""
+    n = 0
+    for fn in ast.walk(tree):
+        if not isinstance(fn, (ast.FunctionDef, ast.AsyncFunctionDef)):
+            continue
+        for holder in ast.walk(fn):
+            for fld in ("body", "orelse", "finalbody"):
+                blk = getattr(holder, fld, None)
+                if not (isinstance(blk, list) and blk and isinstance(blk[0], ast.stmt)):
+                    continue
+                for i in range(len(blk) - 1):
+                    a, chain = blk[i], blk[i + 1]
+                    if not (isinstance(a, ast.Assign) and len(a.targets) == 1 and isinstance(a.targets[0], ast.Name)
+                            and isinstance(a.value, ast.Constant) and a.value.value is None and isinstance(chain, ast.If)):
+                        continue
+                    f = a.targets[0].id
+                    arms = []
+                    cur = chain
+                    ok = True
+                    while True:
+                        if not (len(cur.body) == 1 and isinstance(cur.body[0], ast.Assign) and len(cur.body[0].targets) == 1
+                                and isinstance(cur.body[0].targets[0], ast.Name) and cur.body[0].targets[0].id == f):
+                            ok = False
+                            break
+                        v = cur.body[0].value
+                        if not (isinstance(v, (ast.Name, ast.Constant)) or (isinstance(v, ast.Attribute) and isinstance(v.value, ast.Name))) \
+                                or (isinstance(v, ast.Constant) and not v.value):
+                            ok = False
+                            break
+                        if any(isinstance(x, ast.Call) for x in ast.walk(cur.test)) or any(isinstance(x, ast.Name) and x.id == f for x in ast.walk(cur.test)):
+                            ok = False
+                            break
+                        arms.append((cur.test, v))
+                        if len(cur.orelse) == 1 and isinstance(cur.orelse[0], ast.If):
+                            cur = cur.orelse[0]
+                            continue
+                        if cur.orelse:
+                            ok = False
+                        break
+                    if not ok or not arms:
+                        continue
+                    stores = [x for x in ast.walk(fn) if isinstance(x, ast.Name) and x.id == f and isinstance(x.ctx, (ast.Store, ast.Del))]
+                    if len(stores) != 1 + len(arms):
+                        continue
+                    pos = _positions(fn)
+                    tnames = {x.id for t, _ in arms for x in ast.walk(t) if isinstance(x, ast.Name)} | {
+                        x.id for _, v in arms for x in ast.walk(v) if isinstance(x, ast.Name)}
+                    if any(isinstance(x, ast.Name) and x.id in tnames and isinstance(x.ctx, (ast.Store, ast.Del)) and pos[id(x)] > pos[id(chain)]
+                           for x in ast.walk(fn)):
+                        continue
+                    for g in [x for x in ast.walk(fn) if isinstance(x, ast.If) and pos[id(x)] > pos[id(chain)]]:
+                        t = g.test
+                        is_guard = (isinstance(t, ast.Compare) and len(t.ops) == 1 and isinstance(t.ops[0], ast.IsNot) and isinstance(t.left, ast.Name)
+                                    and t.left.id == f and isinstance(t.comparators[0], ast.Constant) and t.comparators[0].value is None) or (
+                            isinstance(t, ast.Name) and t.id == f and not any(isinstance(v, ast.Constant) for _, v in arms))
+                        if not is_guard or g.orelse:
+                            continue
+                        new = None
+                        for test, v in reversed(arms):
+                            class R(ast.NodeTransformer):
+                                def visit_Name(self, node):
+                                    if node.id == f and isinstance(node.ctx, ast.Load):
+                                        return ast.copy_location(copy.deepcopy(v), node)
+                                    return node
+                            body = [R().visit(copy.deepcopy(s_)) for s_ in g.body]
+                            new = ast.copy_location(ast.If(test=copy.deepcopy(test), body=body, orelse=[new] if new is not None else []), g)
+                        g.test, g.body, g.orelse = new.test, new.body, new.orelse
+                        n += 1
+    # str.upper(x) -> x.upper()
+    class U(ast.NodeTransformer):
+        def visit_Call(self, node):
+            self.generic_visit(node)
+            f_ = node.func
+            if isinstance(f_, ast.Attribute) and isinstance(f_.value, ast.Name) and f_.value.id == "str" and len(node.args) == 1 and not node.keywords \
+                    and f_.attr in ("upper", "lower", "strip", "casefold", "title", "lstrip", "rstrip", "capitalize", "swapcase"):
+                return ast.copy_location(ast.Call(func=ast.Attribute(value=node.args[0], attr=f_.attr, ctx=ast.Load()), args=[], keywords=[]), node)
+            return node
+    if n:
+        U().visit(tree)
+        ast.fix_missing_locations(tree)
+    return n
+
+
 def propagate_dict_copies(tree):
     """`d2 = dict(d1, k=v, ..)` (d2 bound once and only ever read as `d2["<const>"]`; d1, v names that are not re-bound or written
     into afterwards) -> `d2["k"]` becomes v, `d2["other"]` becomes `d1["other"]`"""
@@ -2197,6 +2346,64 @@ def scalarize_local_dicts(tree):
     if n:
         ast.fix_missing_locations(tree)
     return n
+
+
+def lower_zip_count(tree):
+    """`for n, x in zip(itertools.count(S), X)` -> `for n, x in enumerate(X, S)`; `zip(X, itertools.count(S))` with targets swapped"""
+    n = 0
+    for lp in ast.walk(tree):
+        if not (isinstance(lp, ast.For) and isinstance(lp.iter, ast.Call) and isinstance(lp.iter.func, ast.Name) and lp.iter.func.id == "zip"
+                and len(lp.iter.args) == 2 and not lp.iter.keywords and isinstance(lp.target, ast.Tuple) and len(lp.target.elts) == 2):
+            continue
+
+        def is_count(e):
+            return isinstance(e, ast.Call) and ast.unparse(e.func) in ("itertools.count", "count") and len(e.args) <= 1 and not e.keywords
+        a, b = lp.iter.args
+        if is_count(a) and not is_count(b):
+            start, seq, tgt = (a.args[0] if a.args else None), b, lp.target.elts
+        elif is_count(b) and not is_count(a):
+            start, seq, tgt = (b.args[0] if b.args else None), a, [lp.target.elts[1], lp.target.elts[0]]
+        else:
+            continue
+        lp.iter = ast.copy_location(ast.Call(func=ast.Name(id="enumerate", ctx=ast.Load()), args=[seq] + ([start] if start is not None else []),
+                                             keywords=[]), lp.iter)
+        lp.target = ast.copy_location(ast.Tuple(elts=list(tgt), ctx=ast.Store()), lp.target)
+        n += 1
+    if n:
+        ast.fix_missing_locations(tree)
+    return n
+
+
+def lower_dict_dispatch(tree):
+    """`v = {"a": X, "b": Y}.get(k)` / `.get(k, D)` (constant keys, simple values) -> `v = D; if k == "a": v = X elif k == "b": v = Y`"""
+    n = [0]
+
+    def fn(stmts):
+        out = []
+        for st in stmts:
+            v = st.value if isinstance(st, ast.Assign) and len(st.targets) == 1 and isinstance(st.targets[0], ast.Name) else None
+            if isinstance(v, ast.Call) and isinstance(v.func, ast.Attribute) and v.func.attr == "get" and isinstance(v.func.value, ast.Dict) \
+                    and 1 <= len(v.args) <= 2 and not v.keywords and isinstance(v.args[0], ast.Name) and v.func.value.keys \
+                    and all(isinstance(k, ast.Constant) for k in v.func.value.keys) \
+                    and all(isinstance(x, (ast.Name, ast.Constant)) or (isinstance(x, ast.Attribute) and isinstance(x.value, ast.Name)) for x in v.func.value.values) \
+                    and (len(v.args) == 1 or isinstance(v.args[1], (ast.Constant, ast.Name))):
+                tgt = st.targets[0].id
+                dflt = v.args[1] if len(v.args) == 2 else ast.Constant(value=None)
+                out.append(ast.copy_location(ast.Assign(targets=[ast.Name(id=tgt, ctx=ast.Store())], value=dflt), st))
+                chain = None
+                for k, x in reversed(list(zip(v.func.value.keys, v.func.value.values))):
+                    test = ast.Compare(left=copy.deepcopy(v.args[0]), ops=[ast.Eq()], comparators=[k])
+                    chain = ast.copy_location(ast.If(test=test, body=[ast.Assign(targets=[ast.Name(id=tgt, ctx=ast.Store())], value=x)],
+                                                     orelse=[chain] if chain is not None else []), st)
+                out.append(chain)
+                n[0] += 1
+                continue
+            out.append(st)
+        return out
+    _map_blocks(tree, fn)
+    if n[0]:
+        ast.fix_missing_locations(tree)
+    return n[0]
 
 
 def lower_writerows(tree):
@@ -2409,6 +2616,55 @@ def extern_helpers(tree, modname, raw_trees):
     return out
 
 
+def expand_partials(tree):
+    """`g = functools.partial(F, a, k=v)` (g bound once, only ever called) -> every `g(x, y=z)` becomes `F(a, x, k=v, y=z)`.
+    The bound arguments must be names / constants / tuples of them that are not re-bound before the last call."""
+    n = 0
+    for fn in ast.walk(tree):
+        if not isinstance(fn, (ast.FunctionDef, ast.AsyncFunctionDef)):
+            continue
+        pos = None
+        for st in [x for x in ast.walk(fn) if isinstance(x, ast.Assign)]:
+            v = st.value
+            if not (len(st.targets) == 1 and isinstance(st.targets[0], ast.Name) and isinstance(v, ast.Call) and v.args
+                    and ast.unparse(v.func) in ("functools.partial", "partial")):
+                continue
+            g = st.targets[0].id
+            names = [x for x in ast.walk(fn) if isinstance(x, ast.Name) and x.id == g]
+            calls = [c for c in ast.walk(fn) if isinstance(c, ast.Call) and isinstance(c.func, ast.Name) and c.func.id == g]
+            if not calls or len(names) != len(calls) + 1:
+                continue
+            bound = list(v.args[1:]) + [k.value for k in v.keywords]
+            if any(k.arg is None for k in v.keywords) or any(isinstance(a, ast.Starred) for a in v.args):
+                continue
+
+            def simple(e):
+                return isinstance(e, (ast.Name, ast.Constant)) or (isinstance(e, ast.Attribute) and isinstance(e.value, ast.Name)) or (
+                    isinstance(e, ast.Tuple) and all(simple(x) for x in e.elts))
+            if not all(simple(e) for e in bound) or not simple(v.args[0]):
+                continue
+            pos = pos or _positions(fn)
+            last = max(pos[id(c)] for c in calls)
+            if min(pos[id(c)] for c in calls) < pos[id(st)]:
+                continue
+            watch = {x.id for e in bound + [v.args[0]] for x in ast.walk(e) if isinstance(x, ast.Name)}
+            if any(isinstance(x, ast.Name) and x.id in watch and isinstance(x.ctx, (ast.Store, ast.Del)) and pos[id(st)] < pos[id(x)] <= last
+                   for x in ast.walk(fn)):
+                continue
+            if any(k2.arg in {k.arg for k in v.keywords} for c in calls for k2 in c.keywords if k2.arg):
+                continue
+            for c in calls:
+                c.func = copy.deepcopy(v.args[0])
+                c.args = [copy.deepcopy(a) for a in v.args[1:]] + list(c.args)
+                c.keywords = [ast.keyword(arg=k.arg, value=copy.deepcopy(k.value)) for k in v.keywords] + list(c.keywords)
+            st.value = ast.copy_location(ast.Constant(value=None), st.value)
+            pos = None
+            n += 1
+    if n:
+        ast.fix_missing_locations(tree)
+    return n
+
+
 def expand_kwargs_dicts(tree):
     """`kw = dict(a=x, b=y)` (or a display with constant string keys) that is only ever used as `**kw` in calls of the same
     function -> the keywords are written out at each call and the assignment is dropped.  Values must be names/constants/
@@ -2471,9 +2727,12 @@ def expand_kwargs_dicts(tree):
 def normalize(tree, extern=None, modname=None):
     stats = {"match": desugar_match(tree), "suppress": lower_suppress(tree), "walrus": lower_walrus_if(tree) + lower_walrus_while(tree)}
     stats["kwargs_dicts"] = expand_kwargs_dicts(tree)
+    stats["partials"] = expand_partials(tree)
     stats.update({"constants": propagate_constants(tree), "inlined": 0, "resugared": resugar_loops(tree)})
     stats["writerows"] = lower_writerows(tree)
-    stats["generators"] = inline_simple_generators(tree, extern)
+    stats["zip_count"] = lower_zip_count(tree)
+    stats["dict_dispatch"] = lower_dict_dispatch(tree)
+    stats["generators"] = inline_simple_generators(tree, extern, modname)
     stats["found_flag"] = resugar_found_flag(tree)
     stats["closures"] = inline_local_closures(tree, modname)
     for _ in range(MAX_ROUNDS):
@@ -2489,6 +2748,7 @@ def normalize(tree, extern=None, modname=None):
     stats["getsetattr"] = lower_getsetattr(tree)
     stats["ifexp"] = lower_ifexp(tree)
     stats["sentinels"] = propagate_sentinels(tree)
+    stats["selectors"] = propagate_selectors(tree)
     stats["dict_copies"] = propagate_dict_copies(tree)
     stats["multi_assign"] = split_multi_assign(tree)
     stats["tests"] = canonical_tests(tree)
